@@ -44,15 +44,15 @@ LIST_MUTANTS = ["ok", "names-short", "units-long", "names-duplicate", "defaults-
 
 
 def bounds(tier):
-    return {"attribute presence": "symbolic: every subset of the %d attributes with at most 2 missing (all single- and double-fault mutants)" % len(REQUIRED + ANC + OPTIONAL),
+    return {"attribute presence": "symbolic: every subset of the %d attributes with at most 2 (thorough: 3) missing (all single- and double-fault mutants)" % len(REQUIRED + ANC + OPTIONAL),
             "list mutants": LIST_MUTANTS, "histories": "k<=3 register/deregister over 2 models",
             "import outcomes": ["module", "ModuleNotFoundError", "ValueError"],
             "sys.path": ["dir absent", "dir already present (first/last)"]}
 
 
 def tasks(tier):
-    ts = [{"name": "presence", "fn": "t_presence", "args": {}, "max_paths": 20000,
-           "witnesses": ["accepted", "rejected"]}]
+    ts = [{"name": "presence", "fn": "t_presence", "args": {"max_missing": 2 if tier == "quick" else 3},
+           "max_paths": 20000, "witnesses": ["accepted", "rejected"]}]
     for m in LIST_MUTANTS:
         ts.append({"name": f"lists:{m}", "fn": "t_lists", "args": {"mutant": m}})
     for hist in itertools.product(["regA", "regB", "deregA", "deregB", "regBad"], repeat=3 if tier == "thorough" else 2):
@@ -144,7 +144,7 @@ def _world():
     return w, w.modules["nanite.model"], w.modules["nanite.model.core"], w.modules["nanite.model.logic"]
 
 
-def t_presence():
+def t_presence(max_missing=2):
     w, nm, cmod, logic = _world()
     names = REQUIRED + ANC + OPTIONAL
     pres = {a: boolean("has_" + a) for a in names}
@@ -153,7 +153,7 @@ def t_presence():
     missing = 0
     for a in names:
         missing = missing + core.sym_ite(pres[a], 0, 1)
-    assume(missing <= 2)
+    assume(missing <= max_missing)
     check_assumptions()
     mod = SymModule(_attrs(), pres)
     before = dict(nm.models_available)
